@@ -52,7 +52,7 @@ ActionClauses(pre, r, post) ==
 Verdict(r) ==
   IF r.preanom # <<>> THEN <<"tainted">> ELSE
   LET pre == FromJ(r.pre) IN
-  IF ~Integrity(pre) \/ ~UidFresh(pre) THEN <<"tainted">>
+  IF ~Integrity(pre) THEN <<"tainted">>
   ELSE IF Unspecified(pre, r.op) THEN <<"unspecified">>
   ELSE IF r.postanom # <<>> THEN <<"C01:anomaly." \o r.postanom[1]>>
   ELSE
